@@ -22,7 +22,10 @@ TECHNIQUE = "Lean 4 cache state machine + effect/dependency tables regenerated f
 EXTRACTORS = ["lazy_ops"]
 CHECKER_MODULES = ["PyrexVerif.Proofs.LazyLemmas", "PyrexVerif.Proofs.SignalsThms", "PyrexVerif.Proofs.FnAlgebra"]
 RULE = ("random histories (length <= 15, thorough <= 25) per object: FunctionSignal family - read, shift, *=, /=, "
-        "filter_frequencies, set_buffers (incl. force / None / rejected negative), resample, with_times, +, copy, *, "
+        "filter_frequencies, set_buffers (incl. force / None / rejected negative; for sample spacings that are not binary "
+        "fractions - 0.1, 0.3, 0.7, 1/3, 1e-9, 0.7e-9 and the Askaryan/noise grids - also buffers on and one ulp next to "
+        "k*dt, decimal literals, accumulated sums, and values for which fl(b/dt) is an integer while b % dt != 0), "
+        "resample, with_times, +, copy, *, "
         "in-place edit of `times` handed back as the same object (times += d; t = times; t += d; times = t); "
         "tracers and paths - assignments of from_point, to_point, ice, dz, theta0, direct and of the class-level "
         "settings max_reflections, uniformity_factor, beta_tolerance, solution_sorting, in-place edits of an endpoint "
@@ -49,7 +52,11 @@ LEVEL_NOTE = ("Assumed (translator, trusted base): the value of a lazy property 
               "property quantifies over the listed operations, not over attribute assignment on signals).  "
               "Value algebra: scale / add / window length / buffers-irrelevance-without-filters are proved for "
               "filters as abstract length-preserving linear operators (Sig.FilterSem; the scalar-gain model is the "
-              "instance gainSem and fnValuesA gainSem = fnValues), window_counts as nbuf = ceil(buffer/dt); "
+              "instance gainSem and fnValuesA gainSem = fnValues), window_counts as nbuf = ceil(buffer/dt) over EXACT "
+              "rationals - the code takes the floating-point decision int(b/dt) + (b % dt != 0), which differs from the "
+              "exact ceiling when b/dt rounds to an integer (dt = 0.1, b = 0.5); what the property needs there is only "
+              "that _full_times and _value_window take the SAME decision, and that float boundary is covered by the "
+              "correspondence/search (non-binary dt, buffers on and next to multiples of dt, eager evaluation), not by a theorem; "
               "values_def (direct form), values_shift and values_filter_append (values multiplied by the gain) are "
               "proved for the scalar-gain instance only - that the product of frequency responses acts in one "
               "pad/FFT/crop pass is property C05.  The key-set machine flattens branches, so it is compared "
@@ -334,9 +341,18 @@ def make_signal(run, kind):
     rng = run.rng
     if kind == "FunctionSignal":
         n = rng.choice([8, 16, 33])
-        dt = rng.choice([0.5, 1.0, 0.25])
-        t0 = rng.choice([0.0, -4.0, 10.0])
-        return S.FunctionSignal(t0 + dt * np.arange(n), rng.choice(E["funcs"]), rng.choice([None, "voltage"]))
+        if rng.random() < 0.55:
+            dt = rng.choice([0.5, 1.0, 0.25])
+            t0 = rng.choice([0.0, -4.0, 10.0])
+            return S.FunctionSignal(t0 + dt * np.arange(n), rng.choice(E["funcs"]), rng.choice([None, "voltage"]))
+        # sample spacings that are not binary fractions: buffer/dt is then rounded, and the decision
+        # `int(b/dt) + (b % dt != 0)` of the code sits on floating-point boundaries
+        dt = rng.choice([0.1, 0.1, 0.3, 0.7, 1e-9, 0.7e-9, 1.0 / 3])
+        t0 = rng.choice([0.0, 0.0, -4.0, 10.0]) * dt
+        times = t0 + dt * np.arange(n) if rng.random() < 0.5 else np.linspace(t0, t0 + n * dt, n, endpoint=False)
+        f = rng.choice(E["funcs"])
+        run.count("signal_nonbinary_dt")
+        return S.FunctionSignal(times, (lambda t, f=f, sc=dt: f(np.asarray(t) / sc)), rng.choice([None, "voltage"]))
     n = rng.choice([32, 64])
     times = np.linspace(-10.0, 40.0, n, endpoint=False) if kind.endswith("Noise") else np.linspace(-10e-9, 40e-9, n, endpoint=False)
     if kind in ("FullThermalNoise", "FFTThermalNoise"):
@@ -344,6 +360,12 @@ def make_signal(run, kind):
         return getattr(S, kind)(times, (0.05, 0.3), rms_voltage=1.0, uniqueness_factor=rng.choice([1, 2]))
     p = E["Particle"]("nu_e", vertex=(0, 0, -1000), direction=(0, 0, 1), energy=rng.choice([1e7, 1e8]))
     return getattr(A, kind)(times, p, np.radians(rng.choice([40.0, 50.0, 56.0])), viewing_distance=100.0)
+
+
+def nonbinary(x):
+    """is the sample spacing not a short binary fraction (so that buffer/dt gets rounded)?"""
+    import math
+    return (math.frexp(float(x))[0] * 2 ** 16) % 1 != 0
 
 
 SIGNAL_KINDS = ["FunctionSignal", "FunctionSignal", "FullThermalNoise", "FFTThermalNoise", "ZHSAskaryanSignal",
@@ -365,7 +387,8 @@ def signal_history(ctx, nsteps):
     for _ in range(nsteps):
         s = tr.obj
         op = rng.choice(["read", "read", "shift", "imul", "idiv", "filter", "buffers", "resample", "with_times",
-                         "add", "copy", "mul", "times_inplace", "respace"])
+                         "add", "copy", "mul", "times_inplace", "respace"]
+                        + (["buffers", "buffers"] if nonbinary(unit) else []))
         ctx.run.count("sig_op_" + op)
         if op == "read":
             check_signal(ctx, tr)
@@ -431,11 +454,44 @@ def signal_history(ctx, nsteps):
             tr.tok("call:filter_frequencies")
             ctx.hist.append("filter_frequencies %s" % getattr(h, "__name__", "delay"))
         elif op == "buffers":
-            l = rng.choice([None, 0.0, 1.0, 2.6, 5.0]) if rng.random() < 0.9 else -1.0
-            t = rng.choice([None, 0.0, 3.0])
             force = rng.random() < 0.3
-            l = None if l is None else l * unit
-            t = None if t is None else t * unit
+            if rng.random() < 0.5:
+                l = rng.choice([None, 0.0, 1.0, 2.6, 5.0]) if rng.random() < 0.9 else -1.0
+                t = rng.choice([None, 0.0, 3.0])
+                l = None if l is None else l * unit
+                t = None if t is None else t * unit
+            else:
+                # on and next to integer multiples of dt, as they come out of floating point arithmetic
+                def near_multiple():
+                    k = rng.randint(0, 14)
+                    if rng.random() < 0.5:
+                        # the floating-point boundary itself: b/dt rounds to an integer, b % dt is not zero
+                        cands = []
+                        for kk in range(1, 15):
+                            for c in (kk * unit, float("%.10g" % (kk * unit)), float(np.nextafter(kk * unit, 0.0)),
+                                      float(np.nextafter(kk * unit, np.inf)), sum([unit] * kk)):
+                                if c > 0 and float(c / unit).is_integer() and c % unit != 0:
+                                    cands.append(c)
+                        if cands:
+                            ctx.run.count("set_buffers_on_float_boundary")
+                            return rng.choice(cands)
+                    b = k * unit
+                    how = rng.randrange(6)
+                    if how == 1:
+                        b = float(np.nextafter(b, np.inf))
+                    elif how == 2 and b > 0:
+                        b = float(np.nextafter(b, 0.0))
+                    elif how == 3:
+                        b = float("%.10g" % b)           # the decimal literal a user would type (0.5, 0.9, 1.3)
+                    elif how == 4:
+                        b = sum([unit] * k)              # accumulated
+                    elif how == 5:
+                        b = (k + 0.5) * unit
+                    return max(b, 0.0)
+                l = near_multiple() if rng.random() < 0.85 else None
+                t = near_multiple() if rng.random() < 0.6 else None
+                force = force or rng.random() < 0.4
+                ctx.run.count("set_buffers_near_multiple_of_dt")
             try:
                 s.set_buffers(leading=l, trailing=t, force=force)
             except ValueError:
